@@ -546,7 +546,10 @@ func genC14Req(g *Gen) {
 		case "bind":
 			return &TReq{Kind: "bind", ID: id, DN: []byte("cn=a"), PW: []byte("pw"), Ctrls: cs}
 		case "search":
-			return &TReq{Kind: "search", ID: id, DN: []byte("dc=x"), Scope: 2, Filter: &TFilter{Kind: "present", A: []byte("cn")}, Ctrls: cs}
+			// the size limit of the search and the page size of a paging control are unrelated
+			// fields: every relation between them (0, below, equal, above)
+			return &TReq{Kind: "search", ID: id, DN: []byte("dc=x"), Scope: 2, Size: []int64{0, 1, 6, 7, 8, 2147483647}[int(id)%6],
+				Filter: &TFilter{Kind: "present", A: []byte("cn")}, Ctrls: cs}
 		case "modify":
 			return &TReq{Kind: "modify", ID: id, DN: []byte("cn=a"), Changes: []TChange{{Op: 2, Type: []byte("mail"), Vals: [][]byte{one}}}, Ctrls: cs}
 		case "add":
